@@ -13,6 +13,7 @@ from ..modules import MOV, FORMSMETA
 GO_FILES = ["c06.go", "c06_optab_ast.go", "c06_ctors_ast.go", "gen_forms.go", "zz_c06_wrappers.go",
             "gen_mov.go", "c08.go", "c08cpu.go"]
 PROPS = ["AvoVerif.Props.C08"]
+FINDING = "AvoVerif.Props.C08Finding"
 
 
 def run(ctx):
@@ -27,6 +28,15 @@ def run(ctx):
         return
     if ok and ctx.lake_each(PROPS):
         ctx.audit("C08")
+        # finding F7 proved at the witness: a separate module — when the table is repaired it stops holding and the
+        # finding is stale (a note), which must not break the property's own theorems
+        okf, _ = ctx.lake([FINDING])
+        if okf:
+            ctx.audit("C08Finding")
+        else:
+            ctx.notes.append("Props/C08Finding.lean (negation of the property at the F7 witness) no longer holds: "
+                             "the known_findings.json entry C08/F7 is stale")
+            ctx.log("finding F7: witness theorem no longer holds (stale finding?)")
     if ctx.tier == "thorough":
         ctx.leanchecker(PROPS)
 
